@@ -9,7 +9,7 @@
    real libraries by every correspondence run); the limit, rejection and pass-through theorems hold
    for EVERY behaviour of the decoders, i.e. also for adversarial bodies.                       *)
 From Verif Require Import Common.Base C16.Model C16.Proofs C16.Witness Generated.C16Tables Generated.C16Params C16.Tie
-  C16.Harness C16.Check C16.ClausesSound.
+  C16.Harness C16.Check C16.ClausesSound C16.Link.
 From Coq Require Import String.
 
 (* ---- clause 1a: round trip ----------------------------------------------------------------------
@@ -36,7 +36,7 @@ Theorem roundtrip_default_server : forall enc dec cdec, codec_law enc dec ->
   forall cc mx r,
   type_known cc.(c_type) = true -> is_compressed cc.(c_type) = true -> client_validate cc = true ->
   hdr_compatible cc -> r.(q_ce) = [] -> r.(q_raw) = [] -> body_ok r = true ->
-  let sc := {| s_max := mx; s_algs := None; s_custom := [] |} in
+  let sc := {| s_max := mx; s_algs := None; s_custom := []; s_mw := 0 |} in
   exists c : codec, writer_codec cc.(c_type) = Some c /\
     (let b := body_bytes r.(q_body) in
      let wire := enc c (writer_level c (effective_level cc.(c_level))) b in
@@ -359,6 +359,46 @@ Theorem lserver_sound : forall dec cdec sc w,
 Proof. exact lserver_sound_l. Qed.
 Print Assumptions lserver_sound.
 
+(* ==== every handler BEHIND the server middleware: the configured `middlewares` and the innermost handler ===
+   ToServer puts the decompressor outside the configured middlewares; [server_views] lists the handlers that
+   run, in order, with what each is given. *)
+Theorem every_handler_is_given_the_handlers_view : forall dec cdec sc w i v,
+  In (i, v) (server_views dec cdec sc w) -> exists ce cl s, server dec cdec sc w = Handled ce cl s /\ v = (ce, cl, s).
+Proof. exact views_are_handler_view_l. Qed.
+Print Assumptions every_handler_is_given_the_handlers_view.
+
+Theorem limit_holds_for_every_handler : forall dec cdec sc w i ce cl s,
+  In (i, (ce, cl, s)) (server_views dec cdec sc w) -> (Z.of_nat (List.length (fst s)) <= eff_max sc)%Z.
+Proof. exact limit_holds_every_handler_l. Qed.
+Print Assumptions limit_holds_for_every_handler.
+
+Theorem rejected_request_reaches_no_handler : forall dec cdec sc w,
+  (forall ce cl s, server dec cdec sc w <> Handled ce cl s) -> server_views dec cdec sc w = [].
+Proof. exact rejected_reaches_no_handler_l. Qed.
+Print Assumptions rejected_request_reaches_no_handler.
+
+Theorem middlewares_run_in_order_before_the_handler : forall dec cdec sc w ce cl s,
+  server dec cdec sc w = Handled ce cl s ->
+  map fst (server_views dec cdec sc w) = map N.of_nat (seq 1 sc.(s_mw)) ++ [0%N] /\
+  Forall (fun p => snd p = (ce, cl, s)) (server_views dec cdec sc w).
+Proof. exact views_order_l. Qed.
+Print Assumptions middlewares_run_in_order_before_the_handler.
+
+Theorem roundtrip_for_every_handler : forall enc dec cdec, codec_law enc dec ->
+  forall cc sc r c,
+  client_validate cc = true -> is_compressed cc.(c_type) = true -> writer_codec cc.(c_type) = Some c ->
+  hdr_compatible cc -> r.(q_ce) = [] -> r.(q_raw) = [] -> body_ok r = true ->
+  In cc.(c_type) (eff_algs sc) -> ~ In cc.(c_type) (map fst sc.(s_custom)) ->
+  let b := body_bytes r.(q_body) in
+  let wire := enc c (writer_level c (effective_level cc.(c_level))) b in
+  (Z.of_nat (List.length b) <= eff_max sc)%Z ->
+  (Z.of_nat (List.length wire) <= eff_max sc)%Z ->
+  exists w, client enc cc r = CSent w /\
+    map fst (server_views dec cdec sc w) = map N.of_nat (seq 1 sc.(s_mw)) ++ [0%N] /\
+    Forall (fun p => snd p = ([], (-1)%Z, (b, E_EOF))) (server_views dec cdec sc w).
+Proof. exact roundtrip_every_handler_l. Qed.
+Print Assumptions roundtrip_for_every_handler.
+
 (* ==== unbounded histories: any sequence of requests through one client and one server =================== *)
 Theorem roundtrip_history : forall enc dec cdec, codec_law enc dec ->
   forall cc sc c rs,
@@ -402,6 +442,33 @@ Theorem violated_clause_is_reported : forall c e, eobs_of c = Some e -> ~ Clause
 Proof. exact prop_ok_complete. Qed.
 Print Assumptions violated_clause_is_reported.
 
+(* ==== THE MODEL PASSES THE CLAUSE CHECKER ===================================================================
+   [observe] builds from the model's own run of a request the observation record the harness builds from the
+   implementation's run.  Every check of C16/Check.v holds on it: the checker never demands more than the
+   model delivers, and its verdicts and the theorems above are statements about the same thing. *)
+Theorem model_passes_checker : forall enc dec cdec, codec_law enc dec ->
+  forall cc sc r, eobs_ok (observe enc dec cdec cc sc r) = true.
+Proof. exact model_passes_checker_l. Qed.
+Print Assumptions model_passes_checker.
+
+(* seven of the eight checks need nothing from the codecs: they hold for every codec / custom decoder behaviour *)
+Theorem model_passes_middleware_checks : forall enc dec cdec cc sc r,
+  let e := observe enc dec cdec cc sc r in
+  c_passthrough e = true /\ c_unsupported e = true /\ c_limit e = true /\ c_decoded e = true /\
+  c_untouched e = true /\ c_nopanic e = true /\ c_views e = true.
+Proof. exact model_passes_middleware_checks_l. Qed.
+Print Assumptions model_passes_middleware_checks.
+
+Theorem model_satisfies_clauses : forall enc dec cdec, codec_law enc dec ->
+  forall cc sc r, Clauses (observe enc dec cdec cc sc r).
+Proof. exact model_satisfies_clauses_l. Qed.
+Print Assumptions model_satisfies_clauses.
+
+Theorem model_history_passes_checker : forall enc dec cdec, codec_law enc dec ->
+  forall cc sc rs, forallb (fun r => eobs_ok (observe enc dec cdec cc sc r)) rs = true.
+Proof. exact model_history_passes_checker_l. Qed.
+Print Assumptions model_history_passes_checker.
+
 (* ==== TIE OBLIGATIONS: the hand-written definitions of Model.v equal what the CURRENT Go source says ====
    Generated/C16Tables.v is rewritten on every run by running the current code on the whole (finite, or
    windowed for the level) domain of each function; Generated/C16Params.v by translator T1. *)
@@ -443,7 +510,7 @@ Print Assumptions tie_available_decoders.
 
 Theorem tie_enabled_map :
   forallb (fun p => optN_eqb (option_map slot_num
-                                (tget (decoders {| s_max := 0; s_algs := Some (fst (fst p)); s_custom := [] |}) (snd (fst p))))
+                                (tget (decoders {| s_max := 0; s_algs := Some (fst (fst p)); s_custom := []; s_mw := 0 |}) (snd (fst p))))
                              (snd p)) T_Enabled = true /\
   T_EnabledUnknownKey = [].
 Proof. exact tie_enabled_map_l. Qed.
@@ -451,7 +518,7 @@ Print Assumptions tie_enabled_map.
 
 Theorem tie_server_defaults :
   default_max = T_DefaultMax /\ default_algs = T_DefaultAlgs /\ default_algs = T_EffAlgsNil /\
-  forallb (fun p => Z.eqb (eff_max {| s_max := fst p; s_algs := None; s_custom := [] |}) (snd p)) T_EffMax = true.
+  forallb (fun p => Z.eqb (eff_max {| s_max := fst p; s_algs := None; s_custom := []; s_mw := 0 |}) (snd p)) T_EffMax = true.
 Proof. exact tie_server_defaults_l. Qed.
 Print Assumptions tie_server_defaults.
 
